@@ -44,10 +44,19 @@ inductive MVal
   | strs (l : List Str)
 deriving Repr, DecidableEq, Inhabited
 
+/-- An IP address: family and the address as a number (32 or 128 bits).  A numeral denotes an IPv4
+    address. -/
+structure IP where
+  v6 : Bool := false
+  val : Nat
+deriving Repr, DecidableEq, Inhabited
+
+instance (n : Nat) : OfNat IP n := ⟨{ val := n }⟩
+
 structure Request where
-  srcIP : Nat            -- direct remote (peer) address, IPv4 as a number
-  remoteIP : Nat         -- `remote_ip`: client address after XFF / proxy protocol
-  dstIP : Nat
+  srcIP : IP             -- direct remote (peer) address
+  remoteIP : IP          -- `remote_ip`: client address after XFF / proxy protocol
+  dstIP : IP
   dstPort : Nat
   sni : Str
   peer : Option Identity -- `none`: plaintext / no client certificate
@@ -114,9 +123,10 @@ def evalStrM : StrM → Str → Bool
   | .sfx s ic, x => if ic then hasSuffix (lower s) (lower x) else hasSuffix s x
   | .regex r, x => r.matches x
 
-/-- `CidrRange` containment: the first `len` bits agree. -/
-def Cidr.contains (c : Cidr) (ip : Nat) : Bool :=
-  (ip >>> (32 - c.len)) == (c.addr >>> (32 - c.len))
+/-- `CidrRange` containment: same address family and the first `len` bits agree (an IPv4 address is
+    never inside an IPv6 range, nor the other way round). -/
+def Cidr.contains (c : Cidr) (ip : IP) : Bool :=
+  c.v6 == ip.v6 && (ip.val >>> (c.width - c.len)) == (c.addr >>> (c.width - c.len))
 
 mutual
 def evalVal : ValM → MVal → Bool
